@@ -3,6 +3,7 @@
 package mimetype
 
 import (
+	"strings"
 	"encoding/hex"
 	"sort"
 	vtar "archive/tar"
@@ -207,6 +208,28 @@ func (g *vfGen) genC18() {
 			g.emit(vfOp("tar", "ok", 0, a))
 			g.emit(vfOp("tar", "ok", 3072, a))
 		}
+	}
+	// headers whose byte sum needs all six octal digits (>= 0o100000): names and link names made of high bytes
+	for k := 0; k < 12; k++ {
+		var buf bytes.Buffer
+		w := vtar.NewWriter(&buf)
+		hb := []byte{0xE9, 0xFF, 0xFE, 0xC3}[k%4]
+		nm := string(bytes.Repeat([]byte{hb}, 90+k%10))
+		h := &vtar.Header{Typeflag: vtar.TypeSymlink, Name: nm, Linkname: string(bytes.Repeat([]byte{hb}, 100)), Mode: 0o777, Uname: strings.Repeat("\xfc", 31), Gname: strings.Repeat("\xfd", 31),
+			ModTime: time.Unix(1700000000, 0), Format: vtar.FormatGNU}
+		if err := w.WriteHeader(h); err != nil {
+			continue
+		}
+		a := append([]byte{}, buf.Bytes()...)
+		if len(a) < 512 {
+			continue
+		}
+		for len(a) < 1024 {
+			a = append(a, 0)
+		}
+		g.emit(vfOp("tar", "ok", 0, a))
+		g.emit(vfOp("tar", "ok", 3072, a))
+		g.emit(vfOp("det", "Tar", a[:512], 0))
 	}
 	// directed headers from the standard writer: base-256 numeric fields (size >= 8 GiB, large ids,
 	// negative times) and the text "/gpkg-1" in fields other than the name
